@@ -109,6 +109,7 @@ fn main() {
     match fam {
         "c07" => c07::run(&args[2], &args[3]),
         "c10" => c10::run(&args[2], &args[3]),
+        "c10f" => c10::run_formats(&args[2], &args[3]),
         "excl" => excl::run(&args[2], &args[3]),
         "c12" => c12::run(&args[2], &args[3], args.get(4).and_then(|n| n.parse().ok()).unwrap_or(3)),
         "c13" => c13::run(&args[2], &args[3]),
